@@ -279,6 +279,27 @@ func mutate(t *kernel.Tape, p params, payload []byte, capBytes int) (out []byte,
 			}
 		}
 		return nil, "skip"
+	case "wide-ad":
+		// an ad many times the cap in total although every single expression is far below it
+		// (only meaningful where the payload starts with, or after 8 bytes contains, an ad)
+		per := capBytes / 8
+		if per < 16 {
+			per = 16
+		}
+		n := int(p.Val) * capBytes / per
+		var b []byte
+		if p.Off > 0 {
+			b = append(b, out[:p.Off]...)
+		}
+		var cnt [8]byte
+		binary.BigEndian.PutUint64(cnt[:], uint64(n))
+		b = append(b, cnt[:]...)
+		for i := 0; i < n; i++ {
+			e := fmt.Sprintf("A%06d = \"%s\"", i, strings.Repeat("v", per-16))
+			b = append(append(b, e...), 0)
+		}
+		b = append(b, "Machine\x00Job\x00"...)
+		return b, ""
 	case "bloat":
 		// a value many times the cap, with no terminator, at offset Off
 		if p.Off > len(out) {
@@ -448,7 +469,7 @@ func feed(s *kernel.Sim, p params, wire []byte, capBytes int, dec func(st *strea
 		s.Violate("stack-growth-out-of-proportion", sig, fmt.Sprintf("%s: goroutine stacks grew by %d bytes while decoding (limit 1 MiB + 8 x input): recursion depth follows the peer's input", desc, sg))
 		return
 	}
-	if capBytes > 0 && p.Mut == "bloat" {
+	if capBytes > 0 && (p.Mut == "bloat" || p.Mut == "wide-ad") {
 		consumed := int(ep.BytesIn())
 		if derr == nil {
 			s.Violate("cap-not-enforced", sig, fmt.Sprintf("%s: a value %d times the cap was accepted", desc, p.Val))
@@ -497,6 +518,28 @@ func runFrames(s *kernel.Sim, p params) {
 		wire = refcodec.MakeFrame(byte(p.Val), []byte("payload"))
 	case "partials-never-ending":
 		wire = bytes.Repeat(refcodec.MakeFrame(0, []byte("abcdefgh")), int(p.Val))
+	case "enc-short-first-frame", "enc-short-later-frame":
+		// a keyed receiver is handed a frame too short to hold IV and/or tag
+		key := s.T.Bytes("key", 32)
+		if p.Mut == "enc-short-later-frame" {
+			dir, _ := refcodec.NewGCMDir(key, nil)
+			var iv [16]byte
+			copy(iv[:], s.T.Bytes("iv", 16))
+			wire = dir.Seal(0, []byte("first frame is fine"), iv)
+		}
+		wire = append(wire, refcodec.MakeFrame(1, bytes.Repeat([]byte{0x5a}, int(p.Val)))...)
+		recvEnc := []func(st *stream.Stream) error{
+			func(st *stream.Stream) error { _, err := st.ReceiveCompleteMessage(ctx); return err },
+			func(st *stream.Stream) error { return st.StartMessageRead(ctx) },
+			func(st *stream.Stream) error { _, err := st.ReceiveFrame(ctx); return err },
+			func(st *stream.Stream) error { _, err := message.NewMessageFromStream(st).GetInt(ctx); return err },
+		}
+		dec := recvEnc[p.Frame%len(recvEnc)]
+		feed(s, p, wire, 0, func(st *stream.Stream) error {
+			st.SetSymmetricKey(key)
+			return dec(st)
+		})
+		return
 	}
 	recv := []func(st *stream.Stream) error{
 		func(st *stream.Stream) error { _, err := st.ReceiveCompleteMessage(ctx); return err },
@@ -725,11 +768,30 @@ func gen(g *scen.Gen) {
 						}
 					}
 				}
+				if !enc && strings.Contains(e.name, "ad") {
+					off := 0
+					if e.name == "ccb-reverse-connect" {
+						off = 8 // after the command integer
+					}
+					for _, times := range []int64{3, 10, 30} {
+						if e.cap*int(times) > 8<<20 {
+							continue
+						}
+						if !emit(params{Entry: e.name, Mut: "wide-ad", Off: off, Val: times}) {
+							return
+						}
+					}
+				}
 			}
 		}
 	}
 	// hostile framing
 	for recv := 0; recv < 4; recv++ {
+		for n := int64(0); n <= 40; n++ {
+			if !emit(params{Entry: "frames", Enc: true, Mut: "enc-short-first-frame", Val: n, Frame: recv}) || !emit(params{Entry: "frames", Enc: true, Mut: "enc-short-later-frame", Val: n, Frame: recv}) {
+				return
+			}
+		}
 		for _, v := range []int64{1000, 200000} {
 			if !emit(params{Entry: "frames", Mut: "many-empty-partials", Val: v, Frame: recv}) || !emit(params{Entry: "frames", Mut: "partials-never-ending", Val: v / 10, Frame: recv}) {
 				return
